@@ -137,6 +137,39 @@ fn oracle(s: &ProgScene<X>, t: &Trace) -> Vec<Violation> {
             }
         }
     }
+    // restart cases: the timers the *current* incarnation registered in started() do fire - at
+    // every due time strictly before that incarnation ends and before the terminating action
+    if x.restarted && !x.racy && x.instant {
+        let last_op = s.clients[0].ops.len().saturating_sub(1) as u16;
+        let limit = an.op(0, last_op).map(|o| t.log[o.begin].time).unwrap_or(0);
+        for st in an.exits.iter().filter(|e| e.a == 0 && e.cb == Cb::Started) {
+            let r = st.inc;
+            let end = an.enters.iter().find(|e| e.a == 0 && e.cb == Cb::Stopped && e.inc == r).map(|e| e.time).unwrap_or(u64::MAX).min(term_time.unwrap_or(u64::MAX)).min(limit);
+            for (a, in_handler) in &x.timers {
+                if *in_handler {
+                    continue;
+                }
+                let id = timer_id(a);
+                let (times, exec): (Vec<u64>, bool) = match *a {
+                    Action::Interval { period, .. } | Action::IntervalWith { period, .. } if period > 0 => ((1..).map(|k| st.time + k * period as u64).take_while(|x| *x < end).collect(), false),
+                    Action::DelayedSend { delay, .. } => (Some(st.time + delay as u64).into_iter().filter(|x| *x < end).collect(), false),
+                    Action::DelayedExec { delay, .. } => (Some(st.time + delay as u64).into_iter().filter(|x| *x < end).collect(), true),
+                    _ => continue,
+                };
+                for at in times {
+                    crate::check::oblige("fires-after-restart");
+                    let fired = an.enters.iter().any(|e| e.a == 0 && e.time == at && if exec { e.cb == Cb::Exec { timer: id, reg_inc: r } } else { e.cb == Cb::Tick { timer: id, reg_inc: r } });
+                    if !fired {
+                        out.push(Violation {
+                            clause: "fires-after-restart",
+                            key: format!("C10/timer-of-current-incarnation-silent/{mode}"),
+                            detail: format!("timer {id} registered by incarnation {r} in started() at t={} did not fire at t={at} (that incarnation ran until t={end})", st.time),
+                        });
+                    }
+                }
+            }
+        }
+    }
     // timers never keep the actor alive / die with it
     // (only once the terminating action has really been issued: with timer expiry racing the
     // runnable client, the clock can reach the horizon before the client gets there)
